@@ -188,6 +188,12 @@ def r2(rep, prog):
             tr = trace_through(wb, op_local(t["args"][2]))
             acq = family(prog, D + "acquire_lock")
             okk = any(s[0] == "call" and s[1] in acq for s in tr) and (("downcast", "Continue") in tr or ("downcast", "Ok") in tr)
+            if not okk and tr and tr[-1][0] == "multi" and (("downcast", "Continue") in tr or ("downcast", "Ok") in tr):
+                # the acquisition sits in a helper written into this function (`match acquire_lock(..) { Ok(l) => Ok(l), Err(e) => Err(..) }`):
+                # several definitions of the intermediate Result; every non-constant source of the lock must be the acquire_lock call
+                lv = provenance(wb, op_local(t["args"][2]), extra_transparent=tuple(prog.names(r"Try>?::branch$|Result::<T, E>::map_err$")))
+                srcs = {x for x in lv if x[0] in ("call", "param", "static", "field")}
+                okk = bool(srcs) and all(x[0] == "call" and x[1] in acq for x in srcs)
             rep.check(okk, R, "writer_with_options passes the freshly acquired lock", "new(.., lock <- Continue(acquire_lock(..)?))",
                       "the lock given to IndexWriter::new in writer_with_options does not come from the Ok value of acquire_lock", site=site(wb, b))
         for b, t in calls_to(prog, wb, family(prog, D + "acquire_lock")):
